@@ -140,6 +140,7 @@ func stickyGuard(w *World, fn *ssa.Function, fErr *types.Var) bool {
 }
 
 func runC11(w *World, r *Report, tier string) {
+	wireRule(w, r, "W1", "<resume previd=… h=…/>, <resumed previd=…/>, <enabled id=… resume=…/>", wireSMResume, wireSMResumed, wireSMEnabled)
 	r.Rule("R1", "guard: the write of <resume/> is unreachable once the edges asserting SMState.Id != \"\" are deleted, and once the true-edge of DoesStreamManagement() is deleted; no other library code sends an SMResume")
 	r.Rule("R2", "content: SMResume.PrevId is a load of SMState.Id and H the address of SMState.Inbound")
 	r.Rule("R3", "reset or match: after the reply is read, every path returns true through SMResumed with PrevId == SMState.Id, or stores the zero SMState")
